@@ -105,7 +105,7 @@ var offVals = []string{"reversed", "beyond", "beyond1", "huge", "huge63", "neg",
 
 var dtypeVals = []string{"empty", "I8", "I32", "I64", "F64", "BOOL", "U8", "F8_E4M3", "f32", "num", "null", "missing", "arr", "swap", "swap"}
 
-var shapeVals = []string{"zerofit", "halffit", "zero", "allzero", "huge", "huge63", "max", "over", "neg", "plus1", "minus1", "flat", "rank3", "rank4", "rank5", "empty",
+var shapeVals = []string{"zerofit", "halffit", "hugefit", "hugefit40", "zero", "allzero", "huge", "huge63", "max", "over", "neg", "plus1", "minus1", "flat", "rank3", "rank4", "rank5", "empty",
 	"scalar", "str", "float", "frac", "null", "missing", "swap", "half"}
 
 var nameVals = []string{"drop", "dup", "alias", "empty", "unexpected", "ggufname", "expert", "expertonly", "long", "unicode", "ropefreqs",
